@@ -400,17 +400,25 @@ func (g *gen) opAccountFns() bool {
 	if g.r.Intn(3) == 0 || len(owner) != 32 {
 		caller = g.pick(g.users)
 	}
+	// destHalf: the destination half of a cross-shard call reached directly (executed on the recipient's shard although
+	// the caller lives elsewhere) - authority must be checked on every shard, not only where the sender lives
+	destHalf := func(sp spec) spec {
+		if g.nsh > 1 && g.r.Intn(4) == 0 && g.shardOf(sp.rcv) >= 0 {
+			sp.shard = g.shardOf(sp.rcv)
+		}
+		return sp
+	}
 	switch g.r.Intn(5) {
 	case 0, 1:
 		no := g.pick(g.users)
 		if g.r.Intn(6) == 0 {
 			no = no[:31]
 		}
-		g.do(g.decorate(g.user(oracle.FnChangeOwner, caller, c, g.gasFor(g.cost(oracle.FnChangeOwner)), no)))
+		g.do(destHalf(g.decorate(g.user(oracle.FnChangeOwner, caller, c, g.gasFor(g.cost(oracle.FnChangeOwner)), no))))
 	case 2:
 		sp := g.user(oracle.FnClaim, caller, c, g.gasFor(g.cost(oracle.FnClaim)))
 		sp.ct = g.callType()
-		g.do(sp)
+		g.do(destHalf(sp))
 		if g.r.Intn(3) == 0 {
 			g.emitf("acct %d %s reward %d", g.shardOf(c), hx(c), 1+g.r.Intn(1000))
 		}
@@ -420,7 +428,7 @@ func (g *gen) opAccountFns() bool {
 			d = g.pick(g.accounts) // not a DNS address
 		}
 		u := g.pick(g.users)
-		g.do(g.user(oracle.FnSetUserName, d, u, g.gasFor(g.cost(oracle.FnSetUserName)), []byte("name"+strconv.Itoa(g.r.Intn(50)))))
+		g.do(destHalf(g.user(oracle.FnSetUserName, d, u, g.gasFor(g.cost(oracle.FnSetUserName)), []byte("name"+strconv.Itoa(g.r.Intn(50))))))
 	}
 	return true
 }
@@ -779,7 +787,7 @@ func (g *gen) runNonces() {
 	g.standardState()
 	// several tokens per creator, some with a pre-seeded counter
 	creator := g.pick(g.accounts)
-	seeds := []uint64{254, 255, 65534, 65535, 1<<32 - 2}
+	seeds := counterSeeds
 	for i := 0; i < 4; i++ {
 		tok := g.newTokenID("")
 		g.sft = append(g.sft, tok)
@@ -1207,5 +1215,7 @@ func (g *gen) runDeterminism() {
 		{12, g.opTransfer}, {12, g.opNFTTransfer}, {16, g.opMulti}, {8, g.opMint}, {6, g.opLocalBurn}, {5, g.opESDTBurn},
 		{8, g.opCreate}, {6, g.opAddQty}, {6, g.opNFTBurn}, {3, g.opAddURI}, {3, g.opUpdateAttr}, {3, g.opFreezeThenWipe},
 		{4, g.opSKV}, {3, g.opAnyFunction}, {10, g.lateNetwork}, {2, g.opPayableFlip}, {4, opRoleChurn}, {1, opHandOver}, {3, g.opFrozenZeroCredit}, {4, g.opPauseToggle}, {2, g.opFreezeToggle},
+		// output.go: merging never writes its inputs, not even the spare capacity behind their transfer slices
+		{2, func() bool { g.emit(g.mergeseqLine()); return true }},
 	})
 }
